@@ -104,6 +104,8 @@ def run(ctx):
     r8_groupby_level(ctx)
     r9_missing_and_copy(ctx)
     r10_orderable_arguments(ctx, cmpf)
+    r11_view_composition(ctx)
+    r12_missing_hash(ctx)
 
 
 def _arms(fn):
@@ -205,6 +207,18 @@ def r2_bisect_scan(ctx, cmpf, arms):
     sl = [x for x in walk_shallow(cmpf) if isinstance(x, ast.Assign) and unparse(x) == "col = col[lo:hi]"]
     ok = len(sl) == 1 and any(unparse(t) == "method != 'bisect' or callable(arg)" and p for t, p in guards_of(sl[0], cmpf))
     ctx.ob("C17.R2", RES, "Table._compare", sl[0] if sl else cmpf, "scan arms see exactly the rows lo..hi-1 and report absolute row numbers", ok, stmt="scan slice")
+
+
+def in_arm_sorted_distinct(ctx, rule):
+    """the bisect arm of 'in' (what every Result filter uses to narrow a parameter table by a SET of ids) visits distinct values in ascending order:
+    its ranges, and with them the rows of the narrowed -- still 'indexed' -- table, come out in table order, each once."""
+    cmpf = ctx.fn(RES, "Table._compare")
+    cmpf = rename_copy(cmpf, _roles_compare(cmpf))
+    arm = _arms(cmpf).get("in")
+    b, _, _ = _bisect_scan(arm) if arm is not None else (None, None, [])
+    it = unparse(b.generators[0].iter) if isinstance(b, ast.ListComp) else None
+    ctx.ob(rule, RES, "Table._compare", b if b is not None else cmpf, "'in' on an index column visits sorted(set(<values>)) whatever container the values came in (a set iterates in hash order)",
+           it in ("sorted(set(arg))", "sorted(frozenset(arg))"), detail={"iterates": it}, stmt="in: sorted distinct values")
 
 
 def r3_multiplicity(ctx, cmpf, where, arms):
@@ -490,6 +504,86 @@ def r10_orderable_arguments(ctx, cmpf, rule="C17.R10"):
     ctx.floor(rule, "bisection calls in Table._compare", n, 10)
 
 
+def r11_view_composition(ctx, rule="C17.R11"):
+    """a where() of a where() result selects rows of the parent view: View.__init__ composes the two selections (slice or index list each) pointwise."""
+    ctx.rule(rule, "view composition: for each of the four (given selection, parent selection) kinds in View.__init__ the composed selection is child[k] = parent[given[k]] -- the arm "
+                   "expression is folded over small concrete selections (contiguous and NON-contiguous, empty included) and compared with the pointwise composition")
+    fn = ctx.fn(RES, "View.__init__")
+    arms = []
+    for st in ast.walk(fn):
+        if isinstance(st, ast.If) and isinstance(st.test, ast.BoolOp) and isinstance(st.test.op, ast.And) and len(st.test.values) == 2:
+            names = []
+            for v in st.test.values:
+                neg = isinstance(v, ast.UnaryOp) and isinstance(v.op, ast.Not)
+                nm = unparse(v.operand if neg else v)
+                names.append((nm, not neg))
+            asg = [b for b in st.body if isinstance(b, ast.Assign) and any(is_self_attr(t, "_select") for t in b.targets)]
+            if asg:
+                arms.append((dict(names), asg[0]))
+    ctx.floor(rule, "selection-composing arms of View.__init__", len(arms), 4)
+    flags = {}
+    for st in walk_shallow(fn):
+        pass
+    # which flag names mean what: bound from isinstance(select, slice) / isinstance(data._select, slice)
+    GIVEN = PARENT = None
+    for x in ast.walk(fn):
+        if isinstance(x, ast.Assign) and isinstance(x.value, ast.Call) and call_name(x.value) == "isinstance" and unparse(x.value.args[1]) == "slice" and isinstance(x.targets[0], ast.Name):
+            if unparse(x.value.args[0]) == "select":
+                GIVEN = x.targets[0].id
+            elif unparse(x.value.args[0]).endswith("._select"):
+                PARENT = x.targets[0].id
+    if GIVEN is None or PARENT is None:
+        ctx.ob(rule, RES, "View.__init__", fn, "the kind flags of the two selections were located", None, stmt="kind flags")
+        return
+
+    class Sub(ast.NodeTransformer):
+        def visit_Attribute(self, node):
+            if unparse(node).endswith("data._select"):
+                return ast.copy_location(ast.Name(id="P", ctx=ast.Load()), node)
+            return self.generic_visit(node)
+
+        def visit_Name(self, node):
+            return ast.copy_location(ast.Name(id="S", ctx=ast.Load()), node) if node.id == "select" else node
+
+        def visit_Call(self, node):
+            if unparse(node.func) == "View._try_slice" and len(node.args) == 1:
+                return self.visit(node.args[0])
+            return self.generic_visit(node)
+
+    def as_list(sel, n=12):
+        return list(range(n))[sel] if isinstance(sel, slice) else list(sel)
+    parents = {True: [slice(2, 9), slice(0, 5)], False: [[1, 3, 4, 8, 9, 11], [0, 2], [5]]}
+    for kinds, asg in arms:
+        g, p_ = kinds.get(GIVEN), kinds.get(PARENT)
+        if g is None or p_ is None:
+            continue
+        bad = None
+        expr = Sub().visit(ast.parse(unparse(asg.value), mode="eval").body)
+        code = compile(ast.fix_missing_locations(ast.Expression(expr)), "<arm>", "eval")
+        for P in parents[p_]:
+            plist = as_list(P)
+            givens = ([slice(0, len(plist)), slice(1, max(1, len(plist) - 1)), slice(0, 0)] if g else
+                      [[i for i in range(len(plist)) if i % 2 == 0], [i for i in range(len(plist)) if i in (0, len(plist) - 1)], list(range(len(plist))), []])
+            for S in givens:
+                want = [plist[i] for i in as_list(S, len(plist))]
+                try:
+                    got = as_list(eval(code, {"__builtins__": {}, "slice": slice, "range": range, "len": len, "list": list}, {"P": P, "S": S}))   # folding of a pure selection expression
+                except Exception as e:
+                    got = f"{type(e).__name__}"
+                if got != want and bad is None:
+                    bad = {"parent": repr(P), "given": repr(S), "composed": got if isinstance(got, str) else got[:8], "pointwise": want[:8]}
+        ctx.ob(rule, RES, "View.__init__", asg, f"given {'slice' if g else 'list'} over parent {'slice' if p_ else 'list'} composes pointwise", bad is None, detail=bad,
+               stmt=f"compose given={'slice' if g else 'list'} parent={'slice' if p_ else 'list'}")
+
+
+def r12_missing_hash(ctx, rule="C17.R9"):
+    mt = ctx.model.cls(RES, "MissingType")
+    h, e = mt.methods.get("__hash__"), mt.methods.get("__eq__")
+    ok = h is not None and e is not None and any(isinstance(r, ast.Return) and unparse(r.value) == "hash(None)" for r in ast.walk(h)) and "other is None" in unparse(e)
+    ctx.ob(rule, RES, "MissingType.__hash__", h or mt.node, "Missing == None, so hash(Missing) == hash(None): membership of a missing cell in a set/dict argument holding None agrees with equality "
+           "(the scan arms of 'in' / '!in' use `c in arg`)", ok, stmt="hash agrees with eq")
+
+
 def _drop_le(tree):
     from ..mutate import find_def
     c = find_def(tree, "MissingType")
@@ -497,6 +591,8 @@ def _drop_le(tree):
 
 
 CONTROLS = [
+    ("a list selection over a list view taken as one run", RES, M.replace_expr("View.__init__", "[data._select[i] for i in select]", "data._select[select[0]:select[-1] + 1] if select else []"), "C17.R11"),
+    ("Missing hashes unlike None", RES, M.replace_expr("MissingType.__hash__", "hash(None)", "hash(MissingType)"), "C17.R9"),
     ("None is bisected as it is", RES, M.replace_stmt("Table._compare", M.text_has("if arg is None: arg = Missing"), "if is_collection: arg = [Missing if a is None else a for a in arg]"), "C17.R10"),
     ("ranges reused when the index column set is unchanged", RES, M.insert_after("Table._calc_lohis", M.text_has("if not self._indexes"),
         "if self._lohis and self._lohis.keys() == set(self._indexes): return self._lohis"), "C17.R6"),
